@@ -353,8 +353,10 @@ class TypeGen:
         for i in range(r.randint(1, 3)):
             q = r.choice([None, None, None, "Required", "NotRequired"])
             fields.append({"n": f"k{i}", "t": self.type(depth), "q": q})
+            if r.random() < 0.15:
+                fields[-1]["ro"] = True
         functional = r.random() < 0.2
-        if self.fam.future and any(f["q"] for f in fields):
+        if self.fam.future and any(f["q"] or f.get("ro") for f in fields):
             # class syntax + PEP 563 hides Required/NotRequired from typing itself
             functional = True
         total = r.random() < 0.8
@@ -364,7 +366,7 @@ class TypeGen:
             # a TypedDict extending it with the OTHER totality: an inherited key keeps the requiredness it had in
             # the class that declared it (listed here with an explicit qualifier, not rendered again)
             child = self.fresh("TD")
-            inherited = [dict(f, q=f["q"] or ("Required" if total else "NotRequired"), inherited=True) for f in fields]
+            inherited = [dict(f, q=f["q"] or ("Required" if total else "NotRequired"), inherited=True, ro=False) for f in fields]
             # (under PEP 563 class syntax cannot show qualifiers to typing: there the totality of the declaring class decides alone)
             own = [{"n": f"c{i}", "t": self.type(depth), "q": None if self.fam.future else r.choice([None, None, "Required", "NotRequired"])} for i in range(r.randint(1, 2))]
             self.fam.add({"k": "td", "name": child, "total": not total, "fields": inherited + own, "functional": False, "base": name})
